@@ -1,9 +1,9 @@
 """C16 planner-merge clause, bounded: what _plan_stage stores as the stage context, as a function of the merged ancestor
 outputs A, the reducer results R, the stage's own context C and the reducer keys K:
   k in K            -> (A+R)[k]   (the stage's own value does not override a reducer key)
-  k in C, not in K  -> C[k], except both lists: A[k] followed by the items of C[k] not yet present
+  k in C, not in K  -> C[k], except both lists: A[k] followed, in order, by each item of C[k] that the accumulated list does not hold yet
   k not in C        -> (A+R)[k]
-Bound: keys {p, q}, values from {absent, 1, 2, [1], [1,2], [3]}, reducer on p or none, up to 2 upstream branches."""
+Bound: keys {p, q}, values from {absent, 1, 2, [1], [1,2], [3], [1,1]} (a list with a repeated entry: two identical buffered signals), reducer on p or none, up to 2 upstream branches."""
 import itertools
 from unittest.mock import MagicMock
 
@@ -15,7 +15,7 @@ from stabilize.models.workflow import Workflow
 from stabilize.reducers import apply_output_reducers
 
 ABS = object()
-VALS = [ABS, 1, 2, [1], [1, 2], [3]]
+VALS = [ABS, 1, 2, [1], [1, 2], [3], [1, 1]]
 failures, cases, nontrivial, samples = [], 0, 0, []
 
 
@@ -54,7 +54,10 @@ for ap, aq, cp, cq in itertools.product(VALS, repeat=4):
                 if k in K:
                     continue
                 if k in M and isinstance(M[k], list) and isinstance(v, list):
-                    want[k] = list(M[k]) + [x for x in v if x not in M[k]]
+                    want[k] = list(M[k])
+                    for x in v:  # "avoiding duplicates": an item is appended unless the accumulated list already holds it
+                        if x not in want[k]:
+                            want[k].append(x)
                 else:
                     want[k] = v
             got = {k: stage.context.get(k, ABS) for k in ("p", "q")}
@@ -65,4 +68,4 @@ for ap, aq, cp, cq in itertools.product(VALS, repeat=4):
                                  "want": {k: (None if v is ABS else v) for k, v in exp.items()}})
             if len(samples) < 3 and A and C and K:
                 samples.append({"A": A, "C": C, "K": K, "branches": branches})
-done(cases, nontrivial, failures, "keys p,q; values absent/1/2/[1]/[1,2]/[3]; reducer none|sum|collect on p; 0-2 branches", samples)
+done(cases, nontrivial, failures, "keys p,q; values absent/1/2/[1]/[1,2]/[3]/[1,1]; reducer none|sum|collect on p; 0-2 branches", samples)
